@@ -311,6 +311,7 @@ class Alias:
 
     def __init__(self, ctx: "Ctx", rule: str, text: str, only=None, where=None) -> None:
         self._ctx = ctx
+        self._depth = getattr(ctx, "_depth", 0) + 1  # an alias evaluated inside an alias is not followed (see rules/*.run)
         self._rule = rule
         self._only = only
         self._where = where
